@@ -102,6 +102,10 @@ func init() {
 		n := e.concreteInt(a[1], s, "maxLen")
 		return e.newString(constStr(e, a[0], "nondet name", s), int(n), constStr(e, a[2], "alphabet", s))
 	})
+	regVerif("StringN", func(e *Engine, fn *ssa.Function, a []Value, s ssa.Instruction) Value {
+		n := e.concreteInt(a[1], s, "len")
+		return e.newStringN(constStr(e, a[0], "nondet name", s), int(n), int(n), constStr(e, a[2], "alphabet", s))
+	})
 	regVerif("Choice", func(e *Engine, fn *ssa.Function, a []Value, s ssa.Instruction) Value {
 		n := e.concreteInt(a[1], s, "choice n")
 		v := e.newVar(constStr(e, a[0], "nondet name", s), KBV, 64, "int")
